@@ -12,6 +12,8 @@ TRUST = ("Trusted: govc (self-written, unverified VC generator; guarded by the m
 CLAIMED = {
  "C05": ("Deductive proof, for all inputs and all loop iterations, of contracts on the real lexer and tokenizer: representation invariant, in-bounds token references, progress/termination variants, no index/nil panic, and the token-level depth/field limit accounting (ghost counters). Parser and printer round trip are not covered.",
          "Not decided: print/parse round trip, parser totality beyond the tokenizer, stack depth."),
+ "C02": ("Deductive proof on the renderer: scalar/enum kind checks of every leaf walker as functional contracts over an abstract JSON view (null bubbles iff non-nullable, wrong kind rejected, right kind accepted), path-stack safety (push/pop balanced on every path, no underflow), astjson callee preconditions (SetNull/SetValue need a non-empty path — the walkArray defect F2 was found by this obligation and fixed), null-bubbling guards (a list/object/item is nulled only if it is nullable, only in the pre-walk), plan read-only for package resolve (SSA scan).",
+         "Not decided: byte-level validity of printed scalars, key-set equality through defer filters, walkObject body (assumed contract), end-to-end projection equality, termination of the tree recursion. Known finding F6 (Int accepts 1.5)."),
  "C16": ("Deductive proof of the storability clause on caching.TTL (public, no refusal directive, s-maxage before max-age before default, positive lifetime, int32 seconds never overflow), of the cache-control lexer (bounds, termination) and of 'refusal directives are never lost / public is never invented' through parseIdent and parse (ghost flags).",
          "Not decided: transparency of hits over request histories; Loader.responseCache* functions (contracts pending); fieldNamesArgument is assumed (range-over-func)."),
  "C14": ("Request side: proved chain isFetchAuthorizedFromCache (functional contract with quantified loop invariant over the seeded deny map) -> isFetchAuthorized -> validatePreFetch -> prepareSingleFetch (denied => skipLoad) -> loadPhase (skipLoad => executeSourceLoad is not called), plus the decision key as an uninterpreted-hash term of all three components.",
